@@ -102,6 +102,7 @@ def run(ctx):
     ctx.log("kv (cache on/off): %d lines, %d cases, %d with a difference" % (klines, kcases, kdiffs))
     tcov = {}
     kv_engine.tier_stage(ctx, kouts, tcov)
+    kv_engine.inv_stage(ctx, tcov, kouts)
     cov = cov0({
         "evaluations": lines + klines, "distinct_nontrivial": len(distinct),
         "rule": "cache engine: random insert / insert_for_record / get / get_for_record / remove / remove_for_record / evict / clear / adjust sequences on the real ClockCache "
